@@ -215,7 +215,7 @@ class C14(Check):
     ]
     trusted_base = ['pydantic.TypeAdapter', 'reference JSON-schema evaluator in checks/c14.py', 'python call binding']
     required_classes = ['validator/jsonschema', 'validator/pydantic', 'coerce/on', 'coerce/off', 'outcome/executed', 'outcome/refused-by-binding',
-                        'outcome/refused-by-validation', 'flavour/func', 'flavour/view', 'ctx/yes', 'excluded/yes', 'excluded/injected-without-default', 'attack/excluded-name-supplied',
+                        'outcome/refused-by-validation', 'flavour/func', 'flavour/view', 'ctx/yes', 'excluded/yes', 'excluded/injected-without-default', 'excluded/among-the-positional-parameters', 'ctx/positional', 'attack/excluded-name-supplied',
                         'converted', 'type/vmodel-rejects', 'passing/positional', 'passing/named', 'dispatcher/async', 'sibling-same-name-served-first', 'format/checked', 'format/not-checked',
                         'jsonschema/validator-wide-default-schema', 'jsonschema/declares-draft-04', 'type/annotated-constraint']
 
@@ -297,6 +297,11 @@ class C14(Check):
                      'excluded': excluded, 'coerce': draw(s_bool), 'params': params, 'top': top, 'args': args}
             if excluded:
                 case_['excluded_style'] = draw(st.sampled_from(['default', 'injected']))
+                # where the excluded parameter sits: keyword-only at the end, or an ordinary parameter (with its default) between the
+                # required and the optional client parameters (`def create(request, name, storage=Depends(), limit=5)`)
+                case_['excluded_pos'] = draw(st.sampled_from(['kwonly-last', 'middle']))
+            if ctx and flavour != 'view':
+                case_['ctx_positional'] = draw(s_bool)      # the context is the first positional argument (registered with positional=True)
             if validator == 'jsonschema':
                 # per-method validator arguments besides the schema: a format checker for this method and / or for the sibling
                 case_['format_checker'] = draw(st.integers(0, 3)) == 0
@@ -373,7 +378,11 @@ class C14(Check):
                 src += f' = D{i}'
             parts.append(src)
         injected = spec['excluded'] and spec.get('excluded_style') == 'injected'
-        if spec['excluded']:
+        if spec['excluded'] and spec.get('excluded_pos') == 'middle' and not injected:
+            lead = 1 if (view or spec['ctx']) else 0
+            at = next((i for i in range(lead, len(parts)) if parts[i] == '*' or ' = ' in parts[i]), len(parts))
+            parts.insert(at, "dep_x='injected-default'")
+        elif spec['excluded']:
             if not star:
                 parts.append('*')
             # 'injected': no default at all - a functools.wraps decorator supplies the value (the dishka example in the repository)
@@ -400,7 +409,7 @@ class C14(Check):
                 ns['meth'] = _inject(ns['meth'])
             fn = validator.validate(ns['meth'], **vargs) if vargs else validator.validate(ns['meth'])
             reg = pjrpc.server.MethodRegistry()
-            reg.add(fn, 'meth', context='ctx' if spec['ctx'] else None)
+            reg.add(fn, 'meth', context='ctx' if spec['ctx'] else None, positional=bool(spec['ctx'] and spec.get('ctx_positional')))
             if spec.get('sibling'):
                 ns2: Dict[str, Any] = {'_body': _body, 'NOCTX': hm.NOCTX}
                 sparts = []
@@ -474,7 +483,7 @@ class C14(Check):
             req['params'] = spec['args']['value']
         text = json.dumps(req)
         sig = [(p['name'], p['kind'], p.get('type', p.get('schema')), 'default' in p) for p in spec['params']]
-        where = (f"validator={spec['validator']} coerce={spec['coerce']} flavour={spec['flavour']} ctx={spec['ctx']} excluded={spec['excluded']} "
+        where = (f"validator={spec['validator']} coerce={spec['coerce']} flavour={spec['flavour']} ctx={spec['ctx']} excluded={spec['excluded']}/{spec.get('excluded_pos')} ctx_positional={spec.get('ctx_positional')} "
                  f"sig={sig} top={spec['top']} sibling={spec.get('sibling')} request={text[:300]}")
         verdict, expected = self._expect(spec)
         discs: List[Disc] = []
@@ -520,6 +529,8 @@ class C14(Check):
         classes = [f"validator/{spec['validator']}", f"flavour/{spec['flavour']}", 'ctx/yes' if spec['ctx'] else 'ctx/no',
                    'excluded/yes' if spec['excluded'] else 'excluded/no', f"dispatcher/{spec['dispatcher']}",
                    *(['excluded/injected-without-default'] if spec['excluded'] and spec.get('excluded_style') == 'injected' else []),
+                   *(['excluded/among-the-positional-parameters'] if spec['excluded'] and spec.get('excluded_pos') == 'middle' and spec.get('excluded_style') != 'injected' else []),
+                   *(['ctx/positional'] if spec['ctx'] and spec.get('ctx_positional') and spec['flavour'] != 'view' else []),
                    {'executed': 'outcome/executed', 'binding': 'outcome/refused-by-binding', 'validation': 'outcome/refused-by-validation'}[verdict]]
         if spec['validator'] == 'pydantic':
             classes.append('coerce/on' if spec['coerce'] else 'coerce/off')
